@@ -159,6 +159,10 @@ type patchCase struct {
 	Patch string
 	Props []string
 	Keep  bool // behaviour-preserving: every listed check must stay silent
+	// KnownAlarm: properties whose check is known to alarm on this behaviour-preserving variant
+	// (a limitation recorded in DESIGN.md 12.4); the other listed checks must still stay silent
+	KnownAlarm map[string]bool
+	KnownWhy   string
 }
 
 var propIDRe = regexp.MustCompile(`\bC\d\d\b`)
@@ -172,6 +176,10 @@ func loadPatchCases(dir string, keep bool) []patchCase {
 			Property   string   `json:"property"`
 			DetectedBy string   `json:"detected_by"`
 			Props      []string `json:"props"`
+			Known      *struct {
+				Props []string `json:"props"`
+				Why   string   `json:"why"`
+			} `json:"known_false_alarm"`
 		}
 		b, err := os.ReadFile(mf)
 		if err != nil || json.Unmarshal(b, &m) != nil {
@@ -180,6 +188,13 @@ func loadPatchCases(dir string, keep bool) []patchCase {
 		c := patchCase{Name: filepath.Base(filepath.Dir(mf)), Patch: filepath.Join(filepath.Dir(mf), "patch.diff"), Keep: keep}
 		if keep {
 			c.Props = m.Props
+			if m.Known != nil {
+				c.KnownAlarm = map[string]bool{}
+				for _, p := range m.Known.Props {
+					c.KnownAlarm[p] = true
+				}
+				c.KnownWhy = m.Known.Why
+			}
 		} else {
 			seen := map[string]bool{}
 			for _, p := range propIDRe.FindAllString(m.DetectedBy, -1) {
@@ -201,6 +216,7 @@ func runPatchCase(c patchCase) (status, detail string) {
 	if len(c.Props) == 0 {
 		return "skipped", "no property listed"
 	}
+	var known []string
 	for _, p := range c.Props {
 		cmd := exec.Command(os.Args[0], "check", p, "--tier", "quick", "--patch", c.Patch)
 		cmd.Env = append(os.Environ(), "NASVERIF_NO_SELFTEST=1")
@@ -229,14 +245,24 @@ func runPatchCase(c patchCase) (status, detail string) {
 			}
 		}
 		if c.Keep {
+			if code != 0 && c.KnownAlarm[p] {
+				known = append(known, p)
+				continue
+			}
 			if code != 0 {
 				return "false-alarm", p + ": " + first
+			}
+			if c.KnownAlarm[p] {
+				return "stale-limit", p + " no longer alarms on this variant: remove it from known_false_alarm in meta.json"
 			}
 			continue
 		}
 		if code == 1 {
 			return "caught", p + ": " + first
 		}
+	}
+	if c.Keep && len(known) > 0 {
+		return "known-limit", strings.Join(known, ",") + " alarm(s) as recorded: " + c.KnownWhy
 	}
 	if c.Keep {
 		return "clean", strings.Join(c.Props, ",")
@@ -272,7 +298,7 @@ func cmdPatchSelftest(dir string, keep bool, filter string) int {
 	for i, c := range run {
 		fmt.Printf("%-12s %-10s %s\n", rs[i].status, c.Name, rs[i].detail)
 		switch rs[i].status {
-		case "missed", "false-alarm", "nocompile", "skipped":
+		case "missed", "false-alarm", "nocompile", "skipped", "stale-limit":
 			fail++
 		}
 	}
